@@ -34,6 +34,8 @@ func checkC02(c *core.Ctx) {
 	c07ReducerLaws(c, rC02Dedup)
 	c.Rule("ORDABS.aggregation-edge-never-weakened", "depGraph.addEdge, evaluated on every prior state of an edge and both polarities: an edge that records an aggregated (negative) mention is never overwritten by a later or earlier positive mention of the same predicate, so recursion through an aggregation is always seen by stratification (obligation shared with C03)", 1)
 	c.Under("ORDABS.aggregation-edge-never-weakened", []string{rC03Edge}, func() { c03AddEdge(c) })
+	c.Rule("ORDABS.aggregated-body-in-lower-stratum", "Stratify, evaluated from source on every labelled dependency graph over at most three predicates in both map orders (an aggregated mention is a negative edge): recursion through an aggregate is rejected whatever the map order, and otherwise the aggregated predicates lie in a strictly earlier layer, so the body's fixpoint is complete before the reducer runs (obligation shared with C03)", 1)
+	c03StratifyRule(c, "ORDABS.aggregated-body-in-lower-stratum")
 }
 
 func c02Rewrite(c *core.Ctx) {
@@ -433,5 +435,25 @@ func c02Group(c *core.Ctx) {
 			bad = "an empty body yields a fact"
 		}
 	}
-	c.Check(bad == "", rC02Group, f.Name, f.Decl.Pos(), "one group per distinct key value, each reduced over its own rows", bad)
+	// no key: one global group over a non-empty input, nothing at all for an empty one (empty and nil slices)
+	cl0 := q.clause(hClause{headPred: "h", head: []hTerm{hv("N")}, hasDo: true, prems: []hPrem{{kind: "atom", pred: "a", args: []hTerm{hv("K"), hv("V")}}}})
+	transform0 := &ordabs.Rec{Fields: cl0.Fields["Transform"].(*ordabs.Obj).Fields, T: "ast.Transform"}
+	for i, input := range []ordabs.Value{&ordabs.Slice{Elems: &rows}, &ordabs.Slice{Elems: &[]ordabs.Value{}}, (*ordabs.Slice)(nil)} {
+		emits = nil
+		in.Reset()
+		in.Fuel = 500000
+		if _, err := in.Call(f, nil, []ordabs.Value{cl0.Fields["Head"], transform0, input, (*ordabs.Slice)(nil), emit}); !runORD(c, rC02Group, f.Name, f, err) {
+			return
+		}
+		if bad != "" {
+			continue
+		}
+		if i == 0 && fmt.Sprint(emits) != fmt.Sprintf("[%d#3]", q.ck.Number) {
+			bad = fmt.Sprintf("fn:group_by() without keys over 3 rows gives %v, want the single fact with count 3", emits)
+		}
+		if i > 0 && len(emits) != 0 {
+			bad = fmt.Sprintf("fn:group_by() without keys over an empty body yields %v: an empty body must yield no fact", emits)
+		}
+	}
+	c.Check(bad == "", rC02Group, f.Name, f.Decl.Pos(), "one group per distinct key value, each reduced over its own rows; a key-less group_by gives one fact for a non-empty body and none for an empty one", bad)
 }
